@@ -23,8 +23,26 @@ type rgOpts struct {
 }
 
 var rgSegs = []string{"a", "b", "ab", "c", "a.b"}
+
+// segments of decoded paths in which an escape sequence is left (a client sends "%2541" for
+// "%41"): '%' is an ordinary character for matching and rewriting, nothing may decode it again
+var rgPctSegs = []string{"%41", "a%2Fb", "%2e%2e", "50%", "%62"}
 var rgHostNames = []string{"h", "g", "h.g", "www.h", "::1"}
+
+// rgMethods: methods a configuration can list (first three are used in configurations) ...
 var rgMethods = []string{"GET", "POST", "PUT", "DELETE"}
+
+// ... and request methods no configuration can list (WebDAV, cache control, lower case: method
+// tokens are case-sensitive)
+var rgOddMethods = []string{"PROPFIND", "PURGE", "get", "Post", "M-SEARCH"}
+
+func rgReqMethod(r *rand.Rand) string {
+	if r.Intn(5) == 0 {
+		return rgPick(r, rgOddMethods)
+	}
+	return rgPick(r, rgMethods)
+}
+
 var rgHdrVals = []string{"1", "2", "12", "21"}
 var rgHdrKeys = []string{"X-A", "X-B"}
 
@@ -34,7 +52,11 @@ func rgPath(r *rand.Rand) string {
 	n := 1 + r.Intn(3)
 	s := ""
 	for i := 0; i < n; i++ {
-		s += "/" + rgPick(r, rgSegs)
+		if r.Intn(8) == 0 {
+			s += "/" + rgPick(r, rgPctSegs)
+		} else {
+			s += "/" + rgPick(r, rgSegs)
+		}
 	}
 	if r.Intn(6) == 0 {
 		s += "/"
@@ -205,7 +227,7 @@ func rgEntry(r *rand.Rand, o rgOpts, i, j int, mapper *[]interface{}) vx.M {
 	}
 	e["headers"] = hs
 	if kinds > 0 && r.Intn(100) < 40 {
-		e["rewrite"] = rhChars(rgPick(r, []string{"/x", "/y/", "/x/$1", "$1", "/$1/z", "/n$1", "/"}))
+		e["rewrite"] = rhChars(rgPick(r, []string{"/x", "/y/", "/x/$1", "$1", "/$1/z", "/n$1", "/", "/x%20y", "/%41/$1"}))
 	}
 	if o.filters {
 		e["ipf"] = rgFilter(r, 25)
@@ -222,6 +244,7 @@ func rgCfg(r *rand.Rand, o rgOpts) vx.M {
 	mapper := []interface{}{}
 	rules := []interface{}{}
 	nr := r.Intn(o.maxRules + 1)
+	var prev []vx.M // the entries generated so far (all rules)
 	for i := 1; i <= nr; i++ {
 		rule := vx.M{"host": []interface{}{}, "hostRE": rgNoRE(), "ipf": rgNoFilter()}
 		switch r.Intn(6) { // half of the rules have no host condition
@@ -233,13 +256,32 @@ func rgCfg(r *rand.Rand, o rgOpts) vx.M {
 			rule["host"] = rhChars(rgPick(r, rgHostNames))
 			rule["hostRE"] = rgRE(r, rgPick(r, []string{"h", "g"}))
 		}
+		np := r.Intn(o.maxPaths + 1)
 		if o.filters {
-			rule["ipf"] = rgFilter(r, 30)
+			rule["ipf"] = rgFilter(r, 40)
+			// a rule that is mostly a gate: a filter for its hosts and few entries of its own, so
+			// that requests pass it on the way to a later rule
+			if vx.Bool(rule["ipf"].(vx.M)["on"]) && r.Intn(2) == 0 {
+				np = r.Intn(2)
+			}
 		}
 		paths := []interface{}{}
-		np := r.Intn(o.maxPaths + 1)
 		for j := 1; j <= np; j++ {
-			paths = append(paths, rgEntry(r, o, i, j, &mapper))
+			e := rgEntry(r, o, i, j, &mapper)
+			// a sibling of an earlier entry: the same URL condition, so that the two differ in
+			// methods, headers, rewrite or filter only (a restricted entry ahead of a general one,
+			// or behind it)
+			if len(prev) > 0 && r.Intn(3) == 0 {
+				p := prev[r.Intn(len(prev))]
+				for _, k := range []string{"path", "prefix", "re"} {
+					e[k] = p[k]
+				}
+				if vx.Chars(e["path"]) == "" && vx.Chars(e["prefix"]) == "" && !vx.Bool(e["re"].(vx.M)["on"]) {
+					e["rewrite"] = []interface{}{} // rewriteTarget needs a path condition
+				}
+			}
+			prev = append(prev, e)
+			paths = append(paths, e)
 		}
 		rule["paths"] = paths
 		rules = append(rules, rule)
@@ -313,7 +355,7 @@ func rgReq(r *rand.Rand, o rgOpts, cfg vx.M, paths []string, clients []vx.M) vx.
 			hdr[k] = []interface{}{}
 		}
 	}
-	q := vx.M{"host": rhChars(rgHost(r, cfg)), "m": rhChars(rgPick(r, rgMethods)), "path": rhChars(rgPick(r, paths)),
+	q := vx.M{"host": rhChars(rgHost(r, cfg)), "m": rhChars(rgReqMethod(r)), "path": rhChars(rgPick(r, paths)),
 		"hdr": hdr, "ip": clients[r.Intn(len(clients))]}
 	if o.filters {
 		q = rgVia(r, q)
